@@ -153,6 +153,10 @@ def rules(ctx):
     r2_one_state_per_subject(ctx)
     r3_job_effects(ctx)
     r4_individual_sampler(ctx)
+    # subjects are optimised one after the other in one process: a per-subject job that writes through a container shared by all jobs
+    # (class-level defaults, the options dictionary every job receives) makes a subject's estimate depend on the subjects handled before
+    from .c13 import r5_shared_defaults
+    r5_shared_defaults(ctx, rid="C07.R5")
     ctx.trust("joblib.Parallel preserves the order of its generator and runs each call on the arguments given")
     ctx.assume("population tensors broadcast along trailing axes (never aligned with the individual axis by coincidence)")
 
